@@ -163,6 +163,13 @@ def match_shape(ctx, p, v):
     tags = set(p.get("tags", []))
     for f in ctx.findings_for("shape"):
         if f.get("shape") and f["shape"] in shapes:
+            # a finding may name the SIGNATURE of its failure in the report; a mismatch of the same program shape
+            # without that signature is a different defect and is not attributed to the finding
+            if f.get("sig") == "il-value-not-concrete" and v is not None:
+                ex = (v.get("diff") or {}).get("ex") or {}
+                il = ex.get("il")
+                if not (v.get("diff", {}).get("stuck") or (isinstance(il, dict) and "l" not in il)):
+                    continue
             return f
         if f.get("tags") and set(f["tags"]) <= tags:
             return f
